@@ -360,6 +360,30 @@ def read_args_clause(cl, rng, n, replay):
                         cl.fail("hvsrpy.data_wrangler.read", f"recording {k} got degrees_from_north={r.degrees_from_north}, expected {want} (argument {deg!r}, kwargs {kw!r})",
                                 signature="read:degrees", argument=repr(deg), kwargs=repr(kw))
                         return
+        # one file listed several times, each time with reader options of its own (same option names, different values - time spans of one miniSEED file): every
+        # recording holds the samples of *its* span
+        import obspy
+        t0 = obspy.UTCDateTime(2020, 1, 1)
+        for trial in range(3):
+            npts, fs = 400, 100.0
+            data = {c: rng.normal(0, 1000, npts) for c in ("HHN", "HHE", "HHZ")}
+            fn = os.path.join(d, f"spans{trial}.mseed")
+            obspy.Stream([obspy.Trace(data=data[c].copy(), header=dict(channel=c, station="ST", network="NW", sampling_rate=fs, starttime=t0)) for c in data]).write(fn, format="MSEED")
+            a = sorted(int(x) for x in rng.choice(np.arange(10, 390), size=4, replace=False))
+            spans = [(a[0], a[1]), (a[2], a[3]), (a[1], a[2])]
+            kws = [dict(starttime=t0 + lo / fs, endtime=t0 + hi / fs) for lo, hi in spans]
+            deg = [None, 12.0][trial % 2]
+            try:
+                out = hvsrpy.read([fn, fn, fn], obspy_read_kwargs=kws, degrees_from_north=deg)
+            except Exception as ex:
+                cl.fail("hvsrpy.data_wrangler.read", f"one file listed three times with time spans of its own: {type(ex).__name__}: {ex}", signature="read:same-file:exception")
+                return
+            cl.case(("same file, own spans", trial))
+            for k, ((lo, hi), r) in enumerate(zip(spans, out)):
+                if not (r.ns.n_samples == hi - lo + 1 and np.array_equal(r.ns.amplitude, data["HHN"][lo:hi + 1]) and np.array_equal(r.vt.amplitude, data["HHZ"][lo:hi + 1])):
+                    cl.fail("hvsrpy.data_wrangler.read", f"entry {k} of [file, file, file] with the time spans {spans} (in samples): the recording does not hold the samples of its own span "
+                            f"({r.ns.n_samples} samples, expected {hi - lo + 1})", signature="read:same-file-own-options", spans=spans, degrees_from_north=deg)
+                    return
     finally:
         import shutil
         shutil.rmtree(d, ignore_errors=True)
